@@ -21,6 +21,16 @@ package txpool
 //                TXPoolServer.cleanTransactionList (CleanCompletedTransactionList, CleanStaledEIPTx and,
 //                unless pre-execution is disabled, Remain() + re-verification of everything left)
 //
+// The two subscribers and the stateful validator's response channel are independent goroutines in the
+// node, so the async profiles also generate (a) verification results that reach the pool LATE: a tx
+// verified against height h is added to the pool after 0-2 further blocks and after the clean-up of a
+// block (of another proposer) that contains that very tx; (b) the proposer-side duplicate filter in
+// each of the states validHeight() distinguishes: window covers the last block (validHeight = window
+// start), just reset / empty (Clean() by a restart), and "missed a block" (the validator never got the
+// completion event of a block, every later AddBlock is refused as discontinuous until validHeight()
+// notices end != height+1 and resets it; validHeight = ledger height, empty duplicate window); (c)
+// GetTxPool is always called with exactly that validHeight, as solo.makeBlock / vbft.makeProposal do.
+//
 // Oracle (only what the property states), on EVERY proposal: no duplicate hash, nothing that is on
 // chain, per EVM sender the nonces are accountNonce, +1, +2 ... in that order; on every accepted
 // submission that displaced a pooled transaction of the same sender and nonce: the new gas price is
@@ -95,7 +105,11 @@ type c35Node struct {
 	nRepl, nFill          int
 	nontrivial            bool
 	readding              bool
+	forceDefer            bool // the next verification result stays in flight (actLateArrival)
 	nProposals, nProposed int
+
+	vhOf      map[common.Uint256]uint32 // VerifiedHeight the pool accepted a tx with (measurement only)
+	nLateHard int                       // proposals that relied on the pool's expiry alone (see propose)
 }
 
 func (n *c35Node) logf(format string, a ...interface{}) {
@@ -285,7 +299,7 @@ func (n *c35Node) verifyAndQueue(tx *types.Transaction) {
 		n.ev.Class("stateful:" + why)
 		return
 	}
-	if n.p.async && uniform(n.t, 100, "defer") < 30 {
+	if n.p.async && (n.forceDefer || uniform(n.t, 100, "defer") < 30) {
 		n.pending = append(n.pending, v)
 		n.ev.Class("verified:deferred")
 		n.logf("(defer %s@%d)", short(tx.Hash()), v.VerifiedHeight)
@@ -340,6 +354,11 @@ func (n *c35Node) deliver(v *tc.VerifiedTx) {
 		return
 	}
 	n.ev.Class("deliver:accepted")
+	n.vhOf[h] = v.VerifiedHeight
+	if n.onChain(h) {
+		// the verification result is older than the block that committed the tx
+		n.ev.Class("deliver:accepted-although-on-chain")
+	}
 	delete(n.replaced, h)
 	if !tx.IsEipTx() {
 		n.native[h] = true
@@ -407,11 +426,47 @@ func (n *c35Node) propose(tag string) []*types.Transaction {
 	height := n.height()
 	validHeight := height
 	start, end := n.iv.BlockRange()
-	if height+1 == end {
+	covers := height+1 == end
+	if covers {
 		validHeight = start
+		n.ev.Class("propose:window-covers-last-block")
 	} else {
 		n.iv.Clean()
 		n.ev.Class("propose:validator-lagging")
+		if end == 0 {
+			n.ev.Class("propose:validator-empty(reset)")
+		} else {
+			n.ev.Class("propose:validator-behind(missed-block)")
+		}
+	}
+	n.ev.Class("proposal")
+	// measurement: is the pool holding a tx that is already on chain (a late verification result), and is
+	// the validator's duplicate window unable to catch it (so that only the pool's expiry rule and the
+	// nonce check stand between it and the block)?
+	{
+		stale, hard, boundary := false, false, false
+		for _, h := range n.pool.GetTransactionHashList() {
+			if !n.onChain(h) {
+				continue
+			}
+			stale = true
+			if !covers {
+				hard = true
+				if vh, ok := n.vhOf[h]; ok && vh+1 == validHeight && !n.byHash[h].IsEipTx() {
+					boundary = true
+				}
+			}
+		}
+		if stale {
+			n.ev.Class("proposal:pool-holds-on-chain-tx")
+		}
+		if hard {
+			n.ev.Class("proposal:pool-holds-on-chain-tx,window-empty")
+			n.nLateHard++
+		}
+		if boundary {
+			n.ev.Class("proposal:on-chain-native-verified-at-validHeight-1,window-empty")
+		}
 	}
 	// TXPoolServer.getTxPool
 	if validHeight != 0 {
@@ -559,22 +614,73 @@ func (n *c35Node) complete(b *types.Block) {
 		order = uniform(n.t, 8, "completion-order")
 	}
 	switch order {
-	case 4: // pool cleaned first, a proposal attempt in between
+	case 4: // pool cleaned first, late verification results and a proposal attempt in between
 		n.cleanTransactionList(b.Transactions, b.Header.Height)
+		n.lateDeliveries(b)
 		n.ev.Class("complete:propose-between(clean,addblock)")
 		n.propose("Pmid")
-		n.iv.AddBlock(b)
+		n.addBlock(b)
+	case 6: // the validator never gets this block's completion event
+		n.cleanTransactionList(b.Transactions, b.Header.Height)
+		n.lateDeliveries(b)
+		n.ev.Class("complete:validator-missed-block")
+		n.logf("(miss %d)", b.Header.Height)
 	case 5: // validator first, a proposal attempt before the pool is cleaned
-		n.iv.AddBlock(b)
+		n.addBlock(b)
 		n.ev.Class("complete:propose-between(addblock,clean)")
 		n.propose("Pmid")
 		n.cleanTransactionList(b.Transactions, b.Header.Height)
 	case 3:
 		n.cleanTransactionList(b.Transactions, b.Header.Height)
-		n.iv.AddBlock(b)
+		n.lateDeliveries(b)
+		n.addBlock(b)
 	default:
-		n.iv.AddBlock(b)
+		n.addBlock(b)
 		n.cleanTransactionList(b.Transactions, b.Header.Height)
+	}
+}
+
+// addBlock is the validator's SaveBlockComplete handler; it counts the blocks the real validator refuses
+// as discontinuous (it missed an earlier one and nobody has reset it yet).
+func (n *c35Node) addBlock(b *types.Block) {
+	_, end := n.iv.BlockRange()
+	if end != 0 && end != b.Header.Height {
+		n.ev.Class("validator:addblock-refused-discontinuous")
+	}
+	n.iv.AddBlock(b)
+}
+
+// lateDeliveries: verification results that were in flight while block b was saved reach the pool right
+// after the pool's clean-up for b (the response channel and the completion handler are different
+// goroutines): mostly those of txs that b itself contains.
+func (n *c35Node) lateDeliveries(b *types.Block) {
+	if len(n.pending) == 0 {
+		return
+	}
+	in := map[common.Uint256]bool{}
+	for _, tx := range b.Transactions {
+		in[tx.Hash()] = true
+	}
+	var keep, arrived []*tc.VerifiedTx
+	for _, v := range n.pending {
+		pct := 10
+		if in[v.Tx.Hash()] {
+			pct = 60
+		}
+		if uniform(n.t, 100, "late-delivery") < pct {
+			arrived = append(arrived, v)
+		} else {
+			keep = append(keep, v)
+		}
+	}
+	n.pending = keep
+	for _, v := range arrived {
+		n.ev.Class("deliver:right-after-cleanup")
+		if in[v.Tx.Hash()] {
+			n.ev.Class("deliver:right-after-cleanup-of-its-own-block")
+		}
+		n.logf("D' %s@%d", short(v.Tx.Hash()), v.VerifiedHeight)
+		n.deliver(v)
 	}
 }
 
@@ -795,8 +901,11 @@ func (n *c35Node) actForeign() {
 	n.commit(txs, false)
 }
 
-// actLateArrival: a tx verified here and still on its way to the pool is committed by another proposer
-// first, then arrives in the pool (the node's pipeline is asynchronous).
+// actLateArrival: a verification result that is still on its way to the pool (an existing deferred one,
+// or that of a tx submitted right now: native, or EVM at the sender's account nonce) is overtaken by
+// 0-2 empty blocks and then by a block of another proposer that contains that very tx; it arrives after
+// that block's clean-up. The validator's view of that block is drawn by complete() (seen / seen late /
+// missed) and a restart may follow.
 func (n *c35Node) actLateArrival() {
 	var cands []int
 	for i, p := range n.pending {
@@ -807,17 +916,59 @@ func (n *c35Node) actLateArrival() {
 			cands = append(cands, i)
 		}
 	}
-	if len(cands) == 0 {
-		n.actSubmitNew()
-		return
+	var v *tc.VerifiedTx
+	if len(cands) > 0 && uniform(n.t, 100, "late-source") < 40 {
+		v = n.pending[cands[uniform(n.t, len(cands), "late")]]
+		n.ev.Class("late:deferred-earlier")
+	} else {
+		var tx *types.Transaction
+		if rapid.Bool().Draw(n.t, "late-native") {
+			from := uniform(n.t, len(n.natives), "from")
+			tx = n.newNativeTx(from, (from+1)%len(n.natives), n.drawPrice())
+			n.ev.Class("late:fresh-native")
+		} else {
+			si := uniform(n.t, len(n.senders), "sender")
+			tx = n.newEvmTx(si, n.accountNonce(n.senders[si].Address), n.drawPrice())
+			n.ev.Class("late:fresh-evm")
+		}
+		n.logf("S' %s", short(tx.Hash()))
+		n.forceDefer = true
+		n.submit(tx)
+		n.forceDefer = false
+		for _, p := range n.pending {
+			if p.Tx.Hash() == tx.Hash() {
+				v = p
+			}
+		}
+		if v == nil { // not admitted (price floor, balance, pre-execution, same hash already pooled)
+			n.ev.Class("late:not-admitted")
+			return
+		}
 	}
-	i := cands[uniform(n.t, len(cands), "late")]
-	v := n.pending[i]
-	n.pending = append(n.pending[:i:i], n.pending[i+1:]...)
-	n.logf("L %s@%d", short(v.Tx.Hash()), v.VerifiedHeight)
 	n.ev.Class("act:late-arrival")
+	gap := []int{0, 0, 0, 0, 1, 2}[uniform(n.t, 6, "late-gap")]
+	n.logf("L %s@%d+%d", short(v.Tx.Hash()), v.VerifiedHeight, gap)
+	for i := 0; i < gap; i++ {
+		n.commit(nil, false)
+	}
+	if n.onChain(v.Tx.Hash()) || (v.Tx.IsEipTx() && uint64(v.Tx.Nonce) != n.accountNonce(v.Tx.Payer)) {
+		n.t.Fatalf("harness: late-arrival candidate changed under empty blocks")
+	}
 	n.commit([]*types.Transaction{v.Tx}, false)
-	n.deliver(v)
+	for i, p := range n.pending { // unless complete() already let it arrive
+		if p == v {
+			n.pending = append(n.pending[:i:i], n.pending[i+1:]...)
+			n.ev.Class("deliver:right-after-cleanup")
+			n.ev.Class("deliver:right-after-cleanup-of-its-own-block")
+			n.deliver(v)
+			break
+		}
+	}
+	if uniform(n.t, 100, "late-restart") < 30 {
+		n.ev.Class("act:validator-restart")
+		n.logf("X")
+		n.iv.Clean()
+	}
 }
 
 func (n *c35Node) step() {
@@ -838,7 +989,7 @@ func (n *c35Node) step() {
 		acts = append(acts,
 			wa{12, n.actDeliver},
 			wa{9, n.actForeign},
-			wa{5, n.actLateArrival},
+			wa{8, n.actLateArrival},
 			wa{4, func() { n.ev.Class("act:validator-restart"); n.logf("X"); n.iv.Clean() }},
 		)
 	}
@@ -860,13 +1011,22 @@ func (n *c35Node) step() {
 
 func c35Run(t *testing.T, p c35Profile, quick, thorough int) {
 	ev := harn.For("C35").
-		Rule("histories (avg 30 steps) over 3 funded EVM senders + 2 native senders on a fresh solo ledger with drawn initial account nonces (0-2): submit (lowest free nonce / account nonce+0..6 / beyond the highest pooled), resubmit a pooled nonce at lower/equal/1%-threshold/threshold+1/+2%/x2/x10 price, native txs, rebroadcast of any earlier tx, 1-30 empty blocks (validator window 20 => expiry), propose, propose+commit; async profiles add deferred delivery of verified txs, blocks of other proposers (pooled, deferred or unseen txs), a deferred tx committed by another proposer just before it arrives, completion handlers in either order with a proposal in between, validator restarts. Every proposal is checked. Non-trivial = history in which a proposal containing EVM txs was made after >=1 replacement and >=1 gap fill; distinct by the operation log").
+		Rule("histories (avg 30 steps) over 3 funded EVM senders + 2 native senders on a fresh solo ledger with drawn initial account nonces (0-2): submit (lowest free nonce / account nonce+0..6 / beyond the highest pooled), resubmit a pooled nonce at lower/equal/1%-threshold/threshold+1/+2%/x2/x10 price, native txs, rebroadcast of any earlier tx, 1-30 empty blocks (validator window 20 => expiry), propose, propose+commit; async profiles add deferred delivery of verified txs, blocks of other proposers (pooled, deferred or unseen txs), LATE verification results (a deferred or just-submitted native / account-nonce EVM tx verified at height h is overtaken by 0-2 empty blocks and by a foreign block containing that very tx and reaches the pool right after that block's clean-up; any in-flight result may also arrive between a block's pool clean-up and the proposer's next attempt), the proposer's IncrementValidator in every state validHeight() distinguishes (window covers the last block / empty after a restart / missed a block's completion event so later AddBlocks are refused as discontinuous until validHeight() resets it), completion handlers in either order with a proposal in between. GetTxPool is always called with the validHeight solo.makeBlock / vbft.makeProposal compute from the validator's block range. Every proposal is checked (no duplicate, nothing on the ledger, EVM runs consecutive from the account nonce); measured: proposals made while the pool holds an on-chain tx and the duplicate window is empty (only the pool's expiry rule and the nonce check can keep it out). Non-trivial = history in which a proposal containing EVM txs was made after >=1 replacement and >=1 gap fill; distinct by the operation log").
 		Assume("the synchronous mirrors of handleTransaction / stateful validator / handleRsp / getTxPool / makeProposal / cleanTransactionList in the harness match the node's plumbing (read from the source; the actor, event bus and worker pools are not started)").
 		Assume("the stateless validator (signatures) accepted every submitted tx: all generated txs are correctly signed")
 	ev.Floor("deliver:replaced", "deliver", 0.03)
 	ev.Floor("deliver:gapfill", "deliver", 0.03)
 	ev.Floor("proposal:with-evm", "act:propose-commit", 0.3)
 	ev.Floor("history:nontrivial", "history", 0.25)
+	if p.async {
+		// the late-result x validator-state classes the "nothing already on chain" clause relies on
+		ev.Floor("propose:validator-empty(reset)", "proposal", 0.05)
+		ev.Floor("propose:validator-behind(missed-block)", "proposal", 0.07)
+		ev.Floor("proposal:pool-holds-on-chain-tx", "proposal", 0.05)
+		ev.Floor("proposal:pool-holds-on-chain-tx,window-empty", "proposal", 0.02)
+		ev.Floor("proposal:on-chain-native-verified-at-validHeight-1,window-empty", "proposal", 0.001)
+		ev.Floor("deliver:right-after-cleanup-of-its-own-block", "act:late-arrival", 0.5)
+	}
 
 	bk := fix.Key(fix.KP256, 0)
 	config.DefConfig.Common.GasPrice = p.floor
@@ -885,7 +1045,7 @@ func c35Run(t *testing.T, p c35Profile, quick, thorough int) {
 
 		n := &c35Node{t: t, ev: ev, p: p, ch: ch, pool: tc.NewTxPool(), iv: increment.NewIncrementValidator(20),
 			sidx: map[common.Address]int{}, native: map[common.Uint256]bool{}, replaced: map[common.Uint256]bool{},
-			byHash: map[common.Uint256]*types.Transaction{}}
+			byHash: map[common.Uint256]*types.Transaction{}, vhOf: map[common.Uint256]uint32{}}
 		for i := 0; i < 3; i++ {
 			k := fix.Key(fix.KEth, i)
 			n.senders = append(n.senders, k)
@@ -955,6 +1115,9 @@ func c35Run(t *testing.T, p c35Profile, quick, thorough int) {
 		}
 		if n.nFill > 0 {
 			ev.Class("history:with-gapfill")
+		}
+		if n.nLateHard > 0 {
+			ev.Class("history:on-chain-tx-in-pool-vs-empty-window")
 		}
 		d := fmt.Sprintf("%s preExec=%v %s", p.name, n.preExec, strings.Join(n.log, " "))
 		ev.Case(n.nontrivial, d)
